@@ -11,4 +11,8 @@ int  tk13_seal(tk13_keys_t *k, int itype, const unsigned char *pt, int ptlen, un
 int  tk13_finished(const tk13_keys_t *k, const unsigned char *thash, unsigned char *vd);
 void tk_transcript_hash(int hashlen, const buf_t *msgs, unsigned char *out);
 int  tk_split_msgs(const unsigned char *p, int len, tk_msg_t *out, int max);
+/* TLS 1.2 (SHA-256 PRF, AES-GCM): a malicious peer that ran the key exchange itself knows the master secret and its own write keys */
+void tk12_prf_sha256(const unsigned char *secret, int slen, const char *label, const unsigned char *seed, int seedlen, unsigned char *out, int outlen);
+void tk12_finished(const unsigned char ms[48], int is_client, const buf_t *msgs, unsigned char vd[12]);
+int  tk12_gcm_seal(const unsigned char *key, int keylen, const unsigned char salt[4], uint64_t seq, int type, const unsigned char *pt, int ptlen, unsigned char *rec);
 #endif
